@@ -995,7 +995,9 @@ bool IGXMLScanner::normalizeAttValue( const   XMLAttDef* const    attDef
     XMLCh nextCh;
     const XMLCh* srcPtr = value;
 
-    if (type == XMLAttDef::CData || type > XMLAttDef::Notation) {
+    // Enumerated types (XMLAttDef::Enumeration follows Notation) are normalized like the
+    // tokenized types (XML 1.0, 3.3.3); only CDATA and the schema types are not.
+    if (type == XMLAttDef::CData || type > XMLAttDef::Enumeration) {
         //  Get the next character from the source. We have to watch for
         //  escaped characters (which are indicated by a 0xFFFF value followed
         //  by the char that was escaped.)
